@@ -6,6 +6,7 @@ import (
 	"fmt"
 	"sort"
 	"testing"
+	"unsafe"
 
 	mocker "github.com/tencent/goom"
 	ashapes "github.com/tencent/goom/zzverif/c06/a/shapes"
@@ -372,5 +373,70 @@ func TestC06SameName(t *testing.T) {
 		if s := state(); s != [4]int{-106, -111, -206, -211} {
 			rep.Violate("C06/not-restored", fmt.Sprintf("same-name scenario %d: after Reset %v", si, s), nil)
 		}
+	}
+}
+
+// TestC06Retarget: one by-name method mocker object pointed at one method after another (Method(a)... Cancel,
+// Method(b)...): each time exactly the method named last is replaced.
+func TestC06Retarget(t *testing.T) {
+	rep := vmon.NewReport("C06")
+	defer rep.Write()
+	byType := map[string][]reg.Method{}
+	var order []string
+	for _, m := range reg.Methods {
+		if m.PtrRecv {
+			k := m.Pkg + ".*" + m.Type
+			if _, ok := byType[k]; !ok {
+				order = append(order, k)
+			}
+			byType[k] = append(byType[k], m)
+		}
+	}
+	sort.Strings(order)
+	for _, k := range order {
+		ms := byType[k]
+		if len(ms) < 2 {
+			continue
+		}
+		um := mocker.NewUnexportedMethodMocker(ms[0].Pkg, "(*"+ms[0].Type+")")
+		// Apply only: a Return through a mocker object that was cancelled before is not a use the statement covers (the
+		// builder hands out a fresh object after a cancel)
+		for round, forApply := range []bool{true, true, true} {
+			for mi, m := range ms {
+				v := 700000 + round*1000 + mi
+				rep.Journal(map[string]interface{}{"part": "retarget", "type": k, "method": m.Name, "crashkey": "C06/crash"})
+				var perr interface{}
+				func() {
+					defer func() { perr = recover() }()
+					if forApply {
+						um.Method(m.Name).Apply(func(r unsafe.Pointer, a int) int { return v })
+					} else {
+						um.Method(m.Name).As(func(r unsafe.Pointer, a int) int { return 0 }).Return(v)
+					}
+				}()
+				if perr != nil {
+					rep.Violate("C06/retargeted-mocker-rejected", fmt.Sprintf("%s: Method(%q) on a mocker object used for another method before: %v", k, m.Name, perr), nil)
+					continue
+				}
+				for oi, o := range ms {
+					got := o.Forms["pointer"](0, 3)
+					rep.Eval(1)
+					if oi == mi && got != v {
+						rep.Violate("C06/mocked-method-not-replaced", fmt.Sprintf("%s: mocker object retargeted to %q: calling %s returns %d, want the stub value %d", k, m.Name, o.Name, got, v), nil)
+					}
+					if oi != mi && got != o.Orig(0, 3) {
+						rep.Violate("C06/other-method-affected", fmt.Sprintf("%s: mocker object retargeted to %q: sibling %s returns %d, want its original %d", k, m.Name, o.Name, got, o.Orig(0, 3)), nil)
+					}
+				}
+				um.Cancel()
+				for _, o := range ms {
+					if got := o.Forms["pointer"](0, 3); got != o.Orig(0, 3) {
+						rep.Violate("C06/not-restored", fmt.Sprintf("%s: after Cancel of the mocker object (last target %q) %s returns %d, want %d", k, m.Name, o.Name, got, o.Orig(0, 3)), nil)
+					}
+				}
+			}
+		}
+		rep.Class("retarget/one-mocker-object")
+		rep.Stat("retargeted_mocker_objects", 1)
 	}
 }
